@@ -340,13 +340,13 @@ def evaluate(ctx, c, res, toks):
                 # the skip loop ran past the text: because the range starts beyond the source,
                 # or because stripnl removed leading/trailing blank lines the range counts on
                 have_unstripped = pyg_pre(c.code.expandtabs(c.tab_size), False).count("\n")
-                finding = "syntax-range-start-beyond-end-raises" if a - 1 > have_unstripped else "syntax-stripnl-drops-blank-lines"
+                finding = ("syntax-range-start-beyond-end-raises" if a - 1 > have_unstripped else "syntax-stripnl-drops-blank-lines") if (STRIPNL or SKIP_RAISES) else None
         ctx.check(False, site, c.as_dict(), "rendering raised %s: %s" % (res[1], res[2]), finding=finding)
         return
     rows = res[1]
     why = eval_numbered(rows, P, c, w) if c.line_numbers else eval_plain(rows, P, c, w)
     finding = None
-    if why and found and c.code.expandtabs(c.tab_size).replace("\r\n", "\n").replace("\r", "\n").startswith("\n"):
+    if why and STRIPNL and found and c.code.expandtabs(c.tab_size).replace("\r\n", "\n").replace("\r", "\n").startswith("\n"):
         P2 = stripped_variant()
         why2 = eval_numbered(rows, P2, c, w) if c.line_numbers else eval_plain(rows, P2, c, w)
         if why2 is None:
@@ -579,14 +579,14 @@ def syntax_cases(ctx, rng):
             for body in ("x", ""):
                 code = "def f():\n" + prefix + body + "\n    y = 1\n" + wsc * 2 + "\n  z\n" + prefix + body
                 for lexer in ("python", "no-such-lexer", "text"):
-                    for guides in (True, False):
+                    for guides in ((True, False) if lexer != "text" else (True,)):
                         c = Case(code=code, lexer=lexer, indent_guides=guides, tab_size=rng.choice([4, 4, 2, 1]), theme=rng.choice(["ansi_dark", "monokai"]),
                                  line_numbers=True, line_range=rng.choice([None, None, (2, 5), (1, 6)]), highlight=(2,), width=rng.choice([40, 60]),
                                  word_wrap=rng.random() < 0.15)
                         run_case(ctx, c, "exotic-leading-whitespace")
     ctx.flush()
     # (2) structured random
-    n_rand = 2500 if ctx.quick else 60000
+    n_rand = 2000 if ctx.quick else 60000
     for i in range(n_rand):
         lexer = LEXERS[i % len(LEXERS)]
         code = rand_source(rng, lexer)
